@@ -281,7 +281,8 @@ def coq_witness(tp, wit, name):
     for t, x in b:
         k = f"KT {'true' if t[1] else 'false'} {CTOR[t[2]]}" if t[0] == "t" else f"KU {cs(t[1])}"
         items.append(f"({k}, {coq_string(x)})")
-    return f"run_instance {tp} {coq_list(items)} {coq_list([coq_string(w) for w in ws])} {coq_string(name)}"
+    return (f"run_instance {tp} ({coq_list(items)} : list (key * string)) "
+            f"({coq_list([coq_string(w) for w in ws])} : list string) {coq_string(name)}")
 
 
 # ----------------------------------------------------------------------------- generators
@@ -544,6 +545,9 @@ def apply_twist(rng, case):
             toks = toks[:1] + [("u", "sat"), ("lit", "_")] + toks[1:]
     case["tokens"] = merge_lits(toks)
     case["s"], case["e"] = us_of(s), us_of(e)
+    if all(t[0] == "lit" for t in case["tokens"]):
+        # no placeholder left: a single-file fileset, whose `time_coverage` is a period, not a timedelta (not C02's business)
+        case["cfg"]["coverage"] = None
 
 
 def malformed(rng, name, tokens):
@@ -729,18 +733,39 @@ def norm_model(v):
     return ["?", v]
 
 
-def exprs_of(case, name):
+T_PARSE = "result (list (string * string))"
+T_INFO = "result (Z * Z * list (string * string))"
+
+
+def case_term(case, name, inst):
+    """ONE Coq term per case (the template is shared by `let`; a term per question cost four times as much):
+    (render, (parse, (info, ((hyps, promised, exact), ([(parse, info) of each malformed name], [certificates])))))"""
     tp = coq_tokens(case["tokens"], case["user"])
-    fill = coq_pairs(case["fill"])
     s, e = zlit(case["s"]), zlit(case["e"])
-    ex = [f"run_render {tp} {s} {e} {fill}",
-          f"run_parse {tp} {coq_string(name)}",
-          f"run_info {coq_cfg(case['cfg'])} {tp} {coq_string(name)}",
-          f"(hyps {tp} {s} {e} {fill}, promised_partial {tp} {s} {e}, exact_hyp {tp} {s} {e})"]
-    for m in case["bad_names"]:
-        ex.append(f"run_parse {tp} {coq_string(m)}")
-        ex.append(f"run_info {coq_cfg(case['cfg'])} {tp} {coq_string(m)}")
-    return ex
+    bad = coq_list([f"(run_parse tp {coq_string(m)}, run_info c tp {coq_string(m)})" for m in case["bad_names"]])
+    certs = coq_list([x[3] for x in inst if x[3] is not None])
+    return (f"let tp := {tp} in let c := {coq_cfg(case['cfg'])} in "
+            f"let fl : list (string * string) := {coq_pairs(case['fill'])} in "
+            f"(run_render tp {s} {e} fl, (run_parse tp {coq_string(name)}, (run_info c tp {coq_string(name)}, "
+            f"((hyps tp {s} {e} fl, promised_partial tp {s} {e}, exact_hyp tp {s} {e}), "
+            f"(({bad} : list ({T_PARSE} * {T_INFO})), ({certs} : list (bool * list (string * string))))))))")
+
+
+def case_values(val, n_bad, n_cert):
+    """the value of case_term in the flat layout [render, parse, info, hyps, parse_1, info_1, ...], [certificates]"""
+    try:
+        r, (p, (i, hx)) = val                       # Coq prints the left-nested ((hyps..., exact), (bad, certs)) flat
+        h, (bad, certs) = tuple(hx[:6]), hx[6]
+        if len(hx) != 7:
+            return None, None
+        if len(bad) != n_bad or len(certs) != n_cert:
+            return None, None
+        flat = [r, p, i, h]
+        for bp, bi in bad:
+            flat += [bp, bi]
+        return flat, list(certs)
+    except Exception:  # noqa
+        return None, None
 
 
 def instance_exprs(case, obs):
@@ -748,7 +773,7 @@ def instance_exprs(case, obs):
     out = []
     if obs.get("info", 0) is None and any(case["user"].get(t[1], 0) is None for t in case["tokens"] if t[0] == "u"):
         return out                       # parse_filename with an explicit template of unregistered placeholders
-    tp = coq_tokens(case["tokens"], case["user"])
+    tp = "tp"                            # bound by case_term
     accepted = []
     if obs["parse"][0] == "Ok":
         accepted.append((obs["name"], obs["parse"][1]))
@@ -864,38 +889,51 @@ def partial_exact(case):
     return 0 <= case["e"] - case["s"] < UNIT[c]
 
 
+def eval_batched(ctx, name, exprs, shard, timeout):
+    """core.coq_eval labels every term with its index as a `nat` literal, whose cost grows with the index (0.3 s per
+    term at index 30 000: quadratic in the number of terms).  Terms are therefore handed over in batches of at most
+    16 shards, each batch numbered from 0."""
+    vals, logs = [], []
+    batch = 16 * shard
+    for k in range(0, len(exprs), batch):
+        v, log = core.coq_eval(ctx.work / "cases", name, PREAMBLE, exprs[k:k + batch], shard=shard, timeout=timeout)
+        vals += v
+        if log:
+            logs.append(log)
+    return vals, logs
+
+
 def eval_robust(ctx, exprs):
-    """core.coq_eval with one retry: coqc stops at the first term it cannot evaluate and a shard can die under load
+    """Evaluation with one retry: coqc stops at the first term it cannot evaluate and a shard can die under load
     (timeout, kill), which would leave every later term of that shard unevaluated.  Terms without a value are
     evaluated once more in small shards, then -- if few are left -- one by one, so that only a term Coq really
     rejects is reported."""
-    vals, log = core.coq_eval(ctx.work / "cases", "c02", PREAMBLE, exprs, shard=200, timeout=900)
-    logs = [log] if log else []
-    for rnd, (shard, limit) in enumerate([(25, None), (1, 400)]):
+    vals, logs = eval_batched(ctx, "c02", exprs, 40, 600)
+    for rnd, (shard, limit) in enumerate([(8, None), (1, 160)]):
         miss = [i for i, x in enumerate(vals) if x is None]
         if not miss or (limit is not None and len(miss) > limit):
             break
         ctx.log(f"{len(miss)} of {len(exprs)} terms came back without a value; evaluating them again (shards of {shard})")
-        again, log = core.coq_eval(ctx.work / "cases", f"c02_retry{rnd}", PREAMBLE, [exprs[i] for i in miss], shard=shard,
-                                   timeout=600)
-        if log:
-            logs.append(log)
+        again, log = eval_batched(ctx, f"c02_retry{rnd}", [exprs[i] for i in miss], shard, 600)
+        logs += log
         for i, x in zip(miss, again):
             vals[i] = x
     return vals, "\n".join(logs)
 
 
 def check_cases(ctx, cases):
+    for c in cases:
+        if all(t[0] == "lit" for t in c["tokens"]):      # single-file fileset (see apply_twist); also for replayed records
+            c["cfg"]["coverage"] = None
     obs_all = [run_impl(c) for c in cases]
     exprs, index = [], []
     for c, o in zip(cases, obs_all):
         if "construct" in o:
             index.append(None)
             continue
-        ex = exprs_of(c, o["name"])
         o["_inst"] = instance_exprs(c, o)
-        index.append((len(exprs), len(ex)))
-        exprs += ex + [x[3] for x in o["_inst"] if x[3] is not None]
+        index.append(len(exprs))
+        exprs.append(case_term(c, o["name"], o["_inst"]))
     vals, log = eval_robust(ctx, exprs)
     if log:
         ctx.log(log[-2000:])
@@ -910,9 +948,8 @@ def check_cases(ctx, cases):
             continue
         inst = o.pop("_inst")
         n_cert = sum(1 for x in inst if x[3] is not None)
-        v = vals[ix[0]:ix[0] + ix[1] + n_cert]
-        v, v_cert = v[:ix[1]], v[ix[1]:]
-        if any(x is None for x in v + v_cert):
+        v, v_cert = (None, None) if vals[ix] is None else case_values(vals[ix], len(c["bad_names"]), n_cert)
+        if v is None or any(x is None for x in v + v_cert):
             ctx.fail("correspondence", f"Coq evaluation of the model failed for {tag}", case=c, signature="coq-eval")
             continue
         m_render, m_parse, m_info = norm_model(v[0]), parse_norm(norm_model(v[1])), info_norm(norm_model(v[2]))
@@ -1040,8 +1077,8 @@ def check_tables(ctx):
 def run(ctx):
     ctx.prove("Props/C02.v")
     check_tables(ctx)
-    n_law = ctx.n(330, 3200)        # (thorough: ~34 000 Coq evaluations, 4-5 min on an idle 16-core machine)
-    n_tw = ctx.n(170, 1300)
+    n_law = ctx.n(330, 6500)        # (thorough: 9 000 cases = 9 000 Coq terms, one per case)
+    n_tw = ctx.n(170, 2500)
     cases = []
     for k in range(n_law + n_tw):
         c = gen_case(ctx.rng, k, "law" if k < n_law else "twist")
